@@ -450,3 +450,210 @@ theorem regionsOfSheet_render (m : Mode) (pre : List Char) (hp : ∀ c ∈ pre, 
     simpa [renderMergeCells, List.flatMap_cons, List.append_assoc] using this
 
 end Geometry
+
+namespace Geometry
+
+/-! ### table parts -/
+
+theorem parseU32_cnt (n : Nat) (hn : n ≤ 9) : parseU32 (cnt n) = .ok n := by
+  have hb : (UInt8.ofNat (48 + n)).toNat = 48 + n := toNat_ofNat_lt (by omega)
+  have hne : UInt8.ofNat (48 + n) ≠ 43 := by
+    intro e
+    have h43 : (43 : UInt8).toNat = 43 := by decide
+    rw [e] at hb; omega
+  unfold cnt parseU32
+  simp only [hne, if_false]
+  unfold parseU32Digits
+  rw [hb, if_pos (by omega)]
+  simp only [Nat.zero_mul, Nat.zero_add]
+  rw [if_pos (by simp only [U32]; omega)]
+  unfold parseU32Digits
+  congr 1; omega
+
+theorem tableAttrs_unrecognised : ∀ (extra rest : List (List Char × Bytes)) (t : TableMeta),
+    (∀ a ∈ extra, a.1 ∉ tableKeys) → tableAttrs (extra ++ rest) t = tableAttrs rest t
+  | [], _, _, _ => rfl
+  | (k, v) :: as, rest, t, h => by
+    have hk := h (k, v) (List.mem_cons_self ..)
+    have ih := tableAttrs_unrecognised as rest t (fun x hx => h x (List.mem_cons_of_mem _ hx))
+    simp only [tableKeys, List.mem_cons, List.not_mem_nil, or_false, not_or] at hk
+    obtain ⟨h1, h2, h3, h4, h5⟩ := hk
+    simp only [List.cons_append, tableAttrs, h1, h2, h3, h4, h5, if_false, ih]
+
+theorem tableAttrs_decl (t : TableDecl) (ht : t.Ok) :
+    tableAttrs t.attrs {} = .ok ⟨t.name, renderRef2 t.rect, t.h, false, t.t⟩ := by
+  obtain ⟨_, _, hex, _, _, _, _, hh, htot⟩ := ht
+  unfold TableDecl.attrs
+  rw [tableAttrs_unrecognised _ _ _ hex]
+  have k1 : nRef ≠ nDisplayName := by decide
+  have k2 : nHeaderRowCount ≠ nDisplayName := by decide
+  have k3 : nHeaderRowCount ≠ nRef := by decide
+  have k4 : nTotalsRowCount ≠ nDisplayName := by decide
+  have k5 : nTotalsRowCount ≠ nRef := by decide
+  have k6 : nTotalsRowCount ≠ nHeaderRowCount := by decide
+  have k7 : nTotalsRowCount ≠ nInsertRow := by decide
+  unfold TableDecl.h TableDecl.t
+  cases hhdr : t.hdr with
+  | none =>
+    cases htt : t.tot with
+    | none => simp [tableAttrs, k1]
+    | some n =>
+      have := (htot n htt).1
+      simp [tableAttrs, k1, k4, k5, k6, k7, parseU32_cnt n (by omega)]
+  | some h =>
+    have hle := hh h hhdr
+    cases htt : t.tot with
+    | none => simp [tableAttrs, k1, k2, k3, parseU32_cnt h (by omega)]
+    | some n =>
+      have := (htot n htt).1
+      simp [tableAttrs, k1, k2, k3, k4, k5, k6, k7, parseU32_cnt h (by omega), parseU32_cnt n (by omega)]
+
+theorem readTablePart_inert : ∀ (l rest : List Ev) (t : TableMeta) (cols : List Bytes), (∀ e ∈ l, e.TInert) →
+    readTablePart (l ++ rest) t cols = readTablePart rest t cols
+  | [], _, _, _, _ => rfl
+  | e :: es, rest, t, cols, h => by
+    have he := h e (List.mem_cons_self ..)
+    have ih := readTablePart_inert es rest t cols (fun x hx => h x (List.mem_cons_of_mem _ hx))
+    cases e with
+    | start n attrs => simp only [Ev.TInert] at he; simp [readTablePart, he.1, he.2, ih]
+    | end_ n => simp only [Ev.TInert] at he; simp [readTablePart, he, ih]
+    | text t => simp [readTablePart, ih]
+    | other => simp [readTablePart, ih]
+
+theorem nTable_noColon : ∀ c ∈ nTable, c ≠ ':' := by decide
+theorem nTableColumn_noColon : ∀ c ∈ nTableColumn, c ≠ ':' := by decide
+
+theorem filter_name (extra : List (List Char × Bytes)) (c : Bytes) (h : ∀ a ∈ extra, a.1 ≠ nName) :
+    ((extra ++ [(nName, c)]).filter (fun a => a.1 = nName)).map (·.2) = [c] := by
+  rw [List.filter_append]
+  have : extra.filter (fun a => decide (a.1 = nName)) = [] := by
+    rw [List.filter_eq_nil_iff]; intro a ha; simpa using h a ha
+  rw [this]; simp
+
+theorem readTablePart_columns (t : TableDecl) (ht : t.Ok) (rest : List Ev) (tm : TableMeta) :
+    ∀ (cs : List Bytes) (acc : List Bytes),
+      readTablePart (cs.flatMap (renderColumn t) ++ rest) tm acc = readTablePart rest tm (acc ++ cs)
+  | [], acc => by simp
+  | c :: cs, acc => by
+    obtain ⟨hp, _, _, hce, _, hgap, _, _, _⟩ := ht
+    have ih := readTablePart_columns t ⟨hp, ‹_›, ‹_›, hce, ‹_›, hgap, ‹_›, ‹_›, ‹_›⟩ rest tm cs (acc ++ [c])
+    have hl := localName_qn t.pre nTableColumn hp nTableColumn_noColon
+    have hne : nTableColumn ≠ nTable := by decide
+    simp only [List.flatMap_cons, renderColumn, List.cons_append, List.append_assoc, readTablePart, hl, hne,
+      if_false, if_true, filter_name _ _ hce]
+    rw [readTablePart_inert t.gap _ _ _ hgap, ih]
+    simp
+
+/-- the table part reader returns the declared display name, reference text, row counts and column names -/
+theorem readTablePart_decl (t : TableDecl) (ht : t.Ok) :
+    readTablePart (renderTablePart t) {} [] = .ok (⟨t.name, renderRef2 t.rect, t.h, false, t.t⟩, t.cols) := by
+  have ht' := ht
+  obtain ⟨hp, _, _, _, hin, _, htail, _, _⟩ := ht
+  have hl := localName_qn t.pre nTable hp nTable_noColon
+  unfold renderTablePart
+  simp only [readTablePart, hl, if_true, tableAttrs_decl t ht']
+  rw [readTablePart_inert t.inner _ _ _ hin, readTablePart_columns t ht' _ _ t.cols [],
+    readTablePart_inert t.tail _ _ _ htail]
+  simp [readTablePart, hl]
+
+/-! ### sheet relationship parts -/
+
+theorem relAttrs_extra : ∀ (extra rest : List (List Char × Bytes)) (tg : Bytes) (ty : Bool),
+    (∀ a ∈ extra, a.1 ≠ nTarget ∧ a.1 ≠ nType) → relAttrs (extra ++ rest) tg ty = relAttrs rest tg ty
+  | [], _, _, _, _ => rfl
+  | (k, v) :: as, rest, tg, ty, h => by
+    have hk := h (k, v) (List.mem_cons_self ..)
+    have ih := relAttrs_extra as rest tg ty (fun x hx => h x (List.mem_cons_of_mem _ hx))
+    simp only [List.cons_append, relAttrs, hk.1, hk.2, if_false, ih]
+    split <;> rfl
+
+theorem relAttrs_decl (r : RelDecl) (hr : r.Ok) :
+    relAttrs r.attrs [] false = (r.target, decide (r.typ = tableRelType)) := by
+  unfold RelDecl.attrs
+  rw [relAttrs_extra _ _ _ _ hr]
+  have k1 : nTarget ≠ nId := by decide
+  have k2 : nType ≠ nId := by decide
+  have k3 : nType ≠ nTarget := by decide
+  cases r.typeFirst <;> simp [relAttrs, k1, k2, k3]
+
+theorem rfindSlash_dir (root dir : Bytes) (hd : ∀ b ∈ dir, b ≠ 47) :
+    rfindSlash (root ++ 47 :: dir) = some root.length := by
+  unfold rfindSlash
+  have hrev : (root ++ 47 :: dir).reverse = dir.reverse ++ 47 :: root.reverse := by simp
+  have htw : (dir.reverse ++ 47 :: root.reverse).takeWhile (· ≠ 47) = dir.reverse := by
+    rw [List.takeWhile_append_of_pos]
+    · simp
+    · intro b hb; simpa using hd b (List.mem_reverse.mp hb)
+  simp only [hrev, htw, List.length_reverse, List.length_append, List.length_cons]
+  rw [if_neg (by omega)]
+  congr 1; omega
+
+theorem tableLocation_resolve (root dir target : Bytes) (hd : ∀ b ∈ dir, b ≠ 47) :
+    tableLocation (root ++ 47 :: dir) target = .ok (resolveTarget root target) := by
+  unfold tableLocation resolveTarget
+  split
+  · rw [rfindSlash_dir root dir hd]
+    simp
+  · split
+    · rfl
+    · split <;> rfl
+
+theorem relsPathOf_file (dir file : Bytes) (hf : ∀ b ∈ file, b ≠ 47) :
+    relsPathOf (dir ++ 47 :: file) = .ok (dir, dir ++ [47, 95, 114, 101, 108, 115] ++ (47 :: file) ++ [46, 114, 101, 108, 115]) := by
+  unfold relsPathOf
+  rw [rfindSlash_dir dir file hf]
+  simp
+
+theorem tableLocations_decl (root dir : Bytes) (hd : ∀ b ∈ dir, b ≠ 47) (rootAttrs : List (List Char × Bytes)) :
+    ∀ (rs : List RelDecl), (∀ r ∈ rs, r.Ok) →
+      tableLocations (root ++ 47 :: dir) (rs.flatMap renderRel ++ [.end_ nRelationships]) =
+        .ok (rs.filterMap (fun r => if r.typ = tableRelType then resolveTarget root r.target else none))
+  | [], _ => by simp [tableLocations, localName, nRelationships]
+  | r :: rs, h => by
+    have ih := tableLocations_decl root dir hd rootAttrs rs (fun x hx => h x (List.mem_cons_of_mem _ hx))
+    have hr := h r (List.mem_cons_self ..)
+    have hl : localName nRelationship = nRelationship := by decide
+    have hl2 : nRelationship ≠ nRelationships := by decide
+    simp only [List.flatMap_cons, renderRel, List.cons_append, List.nil_append, tableLocations, hl, if_true,
+      relAttrs_decl r hr, hl2, if_false]
+    by_cases hty : r.typ = tableRelType
+    · simp only [hty, decide_true, if_true, tableLocation_resolve root dir _ hd, ih, List.filterMap_cons]
+      cases resolveTarget root r.target <;> simp
+    · simp only [hty, decide_false, Bool.false_eq_true, if_false, ih, List.filterMap_cons]
+
+end Geometry
+
+namespace Geometry
+
+theorem readTables_decl (m : Mode) (parts : List (Bytes × List Ev)) (sheet : Bytes) :
+    ∀ (lt : List (Bytes × TableDecl)), (∀ p ∈ lt, findPart parts p.1 = some (renderTablePart p.2) ∧ p.2.Ok) →
+      readTables m parts sheet (lt.map (·.1)) = .ok (lt.map (fun p => ⟨p.2.name, sheet, p.2.cols, p.2.dataRect⟩))
+  | [], _ => rfl
+  | p :: ps, h => by
+    obtain ⟨hf, hok⟩ := h p (List.mem_cons_self ..)
+    have ih := readTables_decl m parts sheet ps (fun x hx => h x (List.mem_cons_of_mem _ hx))
+    have hok' := hok
+    obtain ⟨_, hv, _, _, _, _, _, hh, htot⟩ := hok
+    have hdims : tableDims m (renderRef2 p.2.rect) p.2.h p.2.t false = .ok p.2.dataRect := by
+      unfold tableDims TableDecl.dataRect
+      rw [getDimension_renderRef2 m _ hv]
+      obtain ⟨_, _, h3, _⟩ := hv
+      have hh1 : p.2.h ≤ 1 := by
+        unfold TableDecl.h; cases hc : p.2.hdr with
+        | none => simp
+        | some x => simpa using hh x hc
+      have ht1 : p.2.t ≤ p.2.rect.er := by
+        unfold TableDecl.t; cases hc : p.2.tot with
+        | none => simp
+        | some x => simpa using (htot x hc).2
+      unfold tableDimsOf
+      have c1 : ¬ (p.2.h ≠ 0 ∧ p.2.rect.sr + p.2.h ≥ U32) := by simp only [U32]; omega
+      have c2 : ¬ (p.2.t ≠ 0 ∧ p.2.rect.er < p.2.t) := by omega
+      simp only [c1, c2, if_false, Bool.false_eq_true, false_and]
+      congr 1
+      have e1 : (if p.2.h ≠ 0 then p.2.rect.sr + p.2.h else p.2.rect.sr) = p.2.rect.sr + p.2.h := by split <;> omega
+      have e2 : (if p.2.t ≠ 0 then p.2.rect.er - p.2.t else p.2.rect.er) = p.2.rect.er - p.2.t := by split <;> omega
+      rw [e1, e2]
+    simp only [List.map_cons, readTables, hf, readTablePart_decl p.2 hok', hdims, ih]
+
+end Geometry
